@@ -34,7 +34,7 @@ HOOKS = dict(
     guard="verif",
     enable="go test -tags verif -overlay <generated overlay.json> (harness files are injected from /verif/harness; hook bodies compile only with -tags verif)",
     baseline_off_cmd="for m in . ./LICENSES/github.com/hashicorp/go-version ./LICENSES/github.com/hashicorp/golang-lru/v2; do (cd /repo/$m && GOFLAGS=-mod=mod GOPROXY=off go test -json -vet=off -count=1 -timeout 25m ./...); done",
-    source_commits=["7c1d62f", "26301e2"],
+    source_commits=["7c1d62f", "26301e2", "5909ade"],
     add_only=True,
 )
 
